@@ -438,6 +438,51 @@ def g_stack(stack, mat, out, I, extra_defaults=()):
     return f"({defaults}, {g_list(files)}, {ovr}, {obs})"
 
 
+def snapshot(mat):
+    return pytypes.SimpleNamespace(dir_orders=list(mat.dir_orders), paths=list(mat.paths), root=mat.root)
+
+
+KINDS = {"file": "KRegular", "link": "KLinkToFile", "dir": "KDirectory", "dangling": "KDangling", "socket": "KSocket"}
+
+
+def g_fs_case(stack, snap, out, I, extra_defaults=()):
+    """The same case for the file-system model (LayersFs.v): nodes by path, symlink targets, the
+    list of paths as given.  Eligibility of directory members is NOT supplied: the model decides
+    from name and kind."""
+    nodes, links = {}, {}
+    for i, fe in enumerate(stack["files"]):
+        if "same_as" in fe or "same_as_member" in fe:
+            continue
+        p = str(snap.paths[i])
+        if "file" in fe:
+            nodes[p] = f"(NFile {g_source(fe['file'], I)})"
+            continue
+        order = snap.dir_orders[i]
+        nodes[p] = "(NDir " + g_list([f"({I.s(m['name'])}, {KINDS[m['shape']]})" for m in order]) + ")"
+        for m in order:
+            mp = p + "/" + m["name"]
+            if m["shape"] == "file":
+                nodes[mp] = f"(NFile {g_source(m['src'], I)})"
+            elif m["shape"] == "link":
+                tgt = str(snap.root / f"t{i}-{m['name']}.target")
+                links[mp] = tgt
+                nodes[tgt] = f"(NFile {g_source(m['src'], I)})"
+            elif m["shape"] == "dir":
+                nodes[mp] = "(NDir [([105; 110; 110; 101; 114; 46; 99; 111; 110; 102], KRegular)])"
+            elif m["shape"] == "socket":
+                nodes[mp] = "(NFile OpenFails)"
+    defaults = g_list([g_list([g_line(x, I) for x in d]) for d in [*extra_defaults, *stack["defaults"]]])
+    ovr = g_list([f"({I.s(s)}, {I.s(k)}, {I.s(v)})" for s, k, v in [*stack["keyring"], *stack["overrides"]]])
+    if out[0] == "ok":
+        obs = "(LReturned " + g_list([f"({I.s(s)}, {g_list([f'({I.s(k)}, {I.s(v)})' for k, v in kv.items()])})"
+                                      for s, kv in out[1].items()]) + ")"
+    else:
+        obs = f"(LRaised {out[1]})"
+    gn = g_list([f"({I.s(k)}, {v})" for k, v in nodes.items()])
+    gl = g_list([f"({I.s(k)}, {I.s(v)})" for k, v in links.items()])
+    return f"({gn}, {gl}, {defaults}, {g_list([I.s(str(p)) for p in snap.paths])}, {ovr}, {obs})"
+
+
 # ------------------------------------------------------------------ python mirrors (monitors, render oracle)
 
 
@@ -623,8 +668,9 @@ def load_stage(chk):
                     frame_probe(chk, stack, mat, out, rng, via_load, case, all_asg)
             extra = [dlines] if via_load else []
             kept.append(case)
-            snap = pytypes.SimpleNamespace(dir_orders=list(mat.dir_orders))
-            builders.append(lambda I, stack=stack, mat=snap, out=out, extra=extra: g_stack(stack, mat, out, I, extra))
+            snap = snapshot(mat)
+            builders.append(lambda I, stack=stack, mat=snap, out=out, extra=extra:
+                            (g_stack(stack, mat, out, I, extra), g_fs_case(stack, mat, out, I, extra)))
             # multi-step: edit the files in place (same paths, same process) and load again
             preset = chk.replay_case.get("reload") if chk.replay_case else None
             if out[0] == "ok" and stack["files"] and (preset or rng.random() < 0.3):
@@ -638,15 +684,18 @@ def load_stage(chk):
     texts = []
     for shard in shards:
         I = Interner()
-        terms = [mk(I) for mk in shard]
-        texts.append(vlib.COQ_HEADER + COQ_IMPORTS + I.header()
+        both = [mk(I) for mk in shard]
+        terms, fterms = [b[0] for b in both], [b[1] for b in both]
+        texts.append(vlib.COQ_HEADER + COQ_IMPORTS + "From Config Require Import LayersFs.\n" + I.header()
                      + "Definition cases : list lcase :=\n " + g_list(terms) + ".\n"
+                     + "Definition fcases : list lfcase :=\n " + g_list(fterms) + ".\n"
                      + "Eval vm_compute in mismatches lcase_ok cases.\n"
-                     + "Eval vm_compute in mismatches last_setter_holds cases.\n")
-    ok = True
+                     + "Eval vm_compute in mismatches last_setter_holds cases.\n"
+                     + "Eval vm_compute in mismatches lfcase_ok fcases.\n")
+    ok, ok_fs = True, [True]
     for si, (rc, outp) in enumerate(vlib.coq_eval_many(AREA, texts, jobs=12)):
         lists = vlib.parse_all_lists(outp)
-        if rc != 0 or len(lists) != 2:
+        if rc != 0 or len(lists) != 3:
             ok = False
             chk.corr_failure("load", {"shard": si, "error": "coq evaluation failed"}, outp[-2000:])
             continue
@@ -658,7 +707,11 @@ def load_stage(chk):
             if not any(mf["case"] is case for mf in chk.monitor_failures if mf["monitor"] == "load_total"):
                 chk.monitor_failure("last_setter_wins", {"call": "_load"},
                                     "some key's effective value is not the one of its last setter in priority order", case)
+        for i in lists[2]:
+            ok_fs[0] = False
+            chk.corr_failure("load_paths", kept[si * per + i])
     chk.obligation("corr:load", "correspondence", ok)
+    chk.obligation("corr:load_paths", "correspondence", ok and ok_fs[0])
 
 
 def reload_probe(chk, stack, mat, via_load, rng, case, builders, kept, extra, preset=None):
@@ -688,8 +741,9 @@ def reload_probe(chk, stack, mat, via_load, rng, case, builders, kept, extra, pr
                             "give the values the files hold now (differs from loading the same contents from fresh paths)",
                             case2)
     kept.append(case2)
-    snap = pytypes.SimpleNamespace(dir_orders=list(mat.dir_orders))
-    builders.append(lambda I, s2=s2, snap=snap, out2=out2, extra=extra: g_stack(s2, snap, out2, I, extra))
+    snap = snapshot(mat)
+    builders.append(lambda I, s2=s2, snap=snap, out2=out2, extra=extra:
+                    (g_stack(s2, snap, out2, I, extra), g_fs_case(s2, snap, out2, I, extra)))
 
 
 def frame_probe(chk, stack, mat, out, rng, via_load, case, all_asg):
